@@ -87,7 +87,7 @@ pub fn gen_dp_query(r: &mut Rng, w: &DpWorld) -> DpQuery {
     let mut feats: Vec<&'static str> = vec![];
     let users = w.cat.table("users").unwrap();
     let city_public = users.cols[users.col("city").unwrap()].finite_values();
-    let shape = r.below(20);
+    let shape = r.below(21);
     let (from, num_cols, keys): (String, Vec<(&str, bool)>, Vec<(&str, bool)>) = match shape {
         0 | 1 | 2 => (
             "orders".into(),
@@ -185,6 +185,15 @@ pub fn gen_dp_query(r: &mut Rng, w: &DpWorld) -> DpQuery {
             // the privacy unit is a plain, non-unique column of the table
             feats.push("direct_nonunique_unit");
             ("visits".into(), vec![("x", true)], vec![("city", city_public), ("uid", false)])
+        }
+        20 => {
+            // an aggregation over a UNION ALL whose branches overlap: the duplicates count
+            feats.push("union_all_derived");
+            (
+                "(SELECT user_id, amount, qty, status FROM orders WHERE qty > 1 UNION ALL SELECT user_id, amount, qty, status FROM orders WHERE adj < 0) AS sub".into(),
+                vec![("amount", true), ("qty", false)],
+                vec![("status", true)],
+            )
         }
         10 => {
             feats.push("derived");
